@@ -217,6 +217,11 @@ def regen():
     except Exception as e:  # a parse failure is itself reported
         problems.append("tables.py: %r" % (e,))
     try:
+        import approx
+        problems += approx.generate(REPO, os.path.join(COQ, "Gen"))
+    except Exception as e:
+        problems.append("approx.py: %r" % (e,))
+    try:
         import leaf
         problems += leaf.generate(REPO, os.path.join(COQ, "Gen"))
     except ImportError:
@@ -323,10 +328,25 @@ def count_obligations(vfiles):
 
 
 def print_assumptions(log_text):
-    """parse the output of Print Assumptions commands from a coqc log"""
-    res = []
-    for m in re.finditer(r"(Closed under the global context|Axioms:\n(?:.+\n?)+?)(?=\n\S|\Z)", log_text):
-        res.append(m.group(1).strip())
+    """parse the output of Print Assumptions commands from a coqc log: one entry per command, either
+    'Closed under the global context' or 'Axioms:' followed by one line per axiom (name [: type])"""
+    res, cur = [], None
+    for line in log_text.splitlines():
+        if line.startswith("Closed under the global context"):
+            if cur is not None:
+                res.append("\n".join(cur)); cur = None
+            res.append("Closed under the global context")
+        elif line.startswith("Axioms:"):
+            if cur is not None:
+                res.append("\n".join(cur))
+            cur = ["Axioms:"]
+        elif cur is not None:
+            if re.match(r"^(COQC|COQDEP|COQ|make|File |Finished|Warning|\[)", line) or not line.strip():
+                res.append("\n".join(cur)); cur = None
+            elif not line[0].isspace():
+                cur.append(line.split(":")[0].strip() + " :")
+    if cur is not None:
+        res.append("\n".join(cur))
     return res
 
 
